@@ -30,6 +30,7 @@ type Entry16 struct {
 	Size  int64    `json:"size"`
 	Short bool     `json:"short"`
 	Enc   string   `json:"enc"`
+	Link  string   `json:"link"` // Linkname class of a symlink / hardlink entry: inside outside sibling updeep any
 }
 
 type PathT struct {
@@ -80,6 +81,7 @@ type Obs16 struct {
 	Dest      []string   `json:"dest"`
 	Allowed   [][]string `json:"allowed"` // roots under which changes are legitimate (dest; for Update also helm's own cache)
 	Changes   []Change   `json:"changes"`
+	Leaks     []Change   `json:"leaks"` // created inside dest, resolving outside: symlinks / hard links
 	Names     []NameObs  `json:"names"`
 	Sizes     []int64    `json:"sizes"`
 	FLim      int64      `json:"flim"`
@@ -337,8 +339,22 @@ func (s *sandbox) stream(c Case16, cc *conc16, r *rand.Rand) (raw []RawEntry, na
 				re.Data = fill(e.Size, r)
 			}
 			if e.Type == "symlink" || e.Type == "hardlink" {
-				re.Link = s.p("out", "canary")
-				if r.Intn(3) == 0 {
+				lk := e.Link
+				if lk == "" || lk == "any" {
+					lk = []string{"inside", "outside", "sibling", "updeep"}[r.Intn(4)]
+				}
+				switch lk {
+				case "inside":
+					re.Link = cc.fwd["n2"]
+				case "outside":
+					re.Link = s.p("out", "canary")
+				case "sibling": // a directory NEXT to dest whose name begins with dest's name
+					up := 1
+					if e.Type == "symlink" { // relative to the link's own directory
+						up = len(e.Comps)
+					}
+					re.Link = strings.Repeat("../", up) + "destx/canary"
+				default:
 					re.Link = "../../../../out/canary"
 				}
 			}
@@ -422,7 +438,7 @@ func RunCase16(c Case16, seed int64, rep int, base string) Obs16 {
 	sb := newSandbox(base, c.ID, rep)
 	defer os.RemoveAll(sb.root)
 	o := Obs16{ID: c.ID, Rep: rep, Fam: c.Fam, Op: c.Op, Layout: c.Layout, Lock: c.Lock, API: c.API,
-		Dest: []string{"dest"}, Allowed: [][]string{{"dest"}}, Changes: []Change{}, Names: []NameObs{}, Sizes: []int64{},
+		Dest: []string{"dest"}, Allowed: [][]string{{"dest"}}, Changes: []Change{}, Leaks: []Change{}, Names: []NameObs{}, Sizes: []int64{},
 		FLim: c.FLim, TLim: c.TLim, SpecErr: c.Spec.Err, SpecOut: []PathT{}, SpecName: c.Spec.Names, SpecKF: c.Spec.KF}
 	if o.SpecName == nil {
 		o.SpecName = [][]string{}
@@ -531,6 +547,10 @@ func RunCase16(c Case16, seed int64, rep int, base string) Obs16 {
 		for i := range o.Changes {
 			o.Changes[i].Path = Abstract(o.Changes[i].Raw, cc.back, sb.sbComps)
 		}
+		o.Leaks = Leaks(sb.root, "dest", before, after)
+		for i := range o.Leaks {
+			o.Leaks[i].Path = Abstract(o.Leaks[i].Raw, cc.back, sb.sbComps)
+		}
 	}
 	return o
 }
@@ -597,5 +617,9 @@ func runLock(c Case16, cc *conc16, sb *sandbox, o *Obs16) {
 	back := map[string]string{"dep-0.1.0.tgz": "dep.tgz"}
 	for i := range o.Changes {
 		o.Changes[i].Path = Abstract(o.Changes[i].Raw, back, sb.sbComps)
+	}
+	o.Leaks = Leaks(sb.root, "dest", before, after)
+	for i := range o.Leaks {
+		o.Leaks[i].Path = Abstract(o.Leaks[i].Raw, back, sb.sbComps)
 	}
 }
